@@ -695,3 +695,28 @@ def is_regular(t):
     if k == "union":
         return all(is_regular(x) for x in t[1])
     return True
+
+
+def leaf_depths(t):
+    """depths (number of list levels, counting the leaf as 1) of every leaf reachable through records/unions"""
+    k = t[0]
+    if k in ("prim", "unknown"):
+        return [1]
+    if k in ("list", "regular"):
+        if t[-1].get("__array__") in ("\"string\"", "\"bytestring\""):
+            return [1]
+        return [d + 1 for d in leaf_depths(t[1])]
+    if k == "option":
+        return leaf_depths(t[1])
+    if k in ("record", "union"):
+        out = []
+        for x in t[1]:
+            out.extend(leaf_depths(x))
+        return out or [1]
+    raise ValueError(k)
+
+
+def branch_depth(t):
+    """(do leaves sit at different depths?, minimum depth) - the meaning of Content::branch_depth"""
+    ds = leaf_depths(t)
+    return (len(set(ds)) > 1, min(ds))
